@@ -7,11 +7,12 @@
 #include "vh.h"
 
 #define NOW 1700000000L
-#define NOPS 24
+#define NOPS 29
 static const char *OPNAME[NOPS] = { "claim_del(exp)", "claim_del(nbf)", "claim_del(iss)", "claim_del(sub)", "claim_del(aud)", "claim_del(all)",
 	"claim_set!(exp=9999999999)", "claim_set!(nbf=0)", "claim_set!(iss=me)", "claim_set!(sub=s)", "claim_set!(aud=x)",
 	"header_del(alg)", "header_del(all)", "header_set!(alg=none)", "header_set!(alg=HS256)", "header_set!(alg=ES256)", "claim_set!(exp='str')", "noop",
-	"claim_get(exp as STR)", "claim_get(iss as INT, aud as BOOL)", "header_get(alg as INT, typ as BOOL)", "get(absent names)", "get(JSON whole, pretty)", "get(right types), jwt_get_alg" };
+	"claim_get(exp as STR)", "claim_get(iss as INT, aud as BOOL)", "header_get(alg as INT, typ as BOOL)", "get(absent names)", "get(JSON whole, pretty)", "get(right types), jwt_get_alg",
+	"header_del(crit)", "header_set!(crit=[exp])", "header_del(typ), header_del(kid)", "header_set!(typ=x, kid=k, cty=c)", "header_set!(crit=7, jwk={}, x5c=[])" };
 
 static void apply_op(jwt_t *jwt, int op)
 {
@@ -45,6 +46,14 @@ static void apply_op(jwt_t *jwt, int op)
 		 jwt_set_GET_JSON(&v, "exp"); if (jwt_claim_get(jwt, &v) == JWT_VALUE_ERR_NONE) free(v.json_val); break;
 	case 23: jwt_set_GET_INT(&v, "exp"); jwt_claim_get(jwt, &v); jwt_set_GET_STR(&v, "iss"); jwt_claim_get(jwt, &v); jwt_set_GET_STR(&v, "alg"); jwt_header_get(jwt, &v);
 		 (void)jwt_get_alg(jwt); break;
+	/* header members other than alg */
+	case 24: jwt_header_del(jwt, "crit"); break;
+	case 25: jwt_set_SET_JSON(&v, "crit", "[\"exp\"]"); v.replace = 1; jwt_header_set(jwt, &v); break;
+	case 26: jwt_header_del(jwt, "typ"); jwt_header_del(jwt, "kid"); break;
+	case 27: jwt_set_SET_STR(&v, "typ", "x"); v.replace = 1; jwt_header_set(jwt, &v); jwt_set_SET_STR(&v, "kid", "k"); v.replace = 1; jwt_header_set(jwt, &v);
+		 jwt_set_SET_STR(&v, "cty", "c"); v.replace = 1; jwt_header_set(jwt, &v); break;
+	case 28: jwt_set_SET_INT(&v, "crit", 7); v.replace = 1; jwt_header_set(jwt, &v); jwt_set_SET_JSON(&v, "jwk", "{}"); v.replace = 1; jwt_header_set(jwt, &v);
+		 jwt_set_SET_JSON(&v, "x5c", "[]"); v.replace = 1; jwt_header_set(jwt, &v); break;
 	default: break;
 	}
 }
@@ -62,12 +71,12 @@ static vh_key_t KH, KE;
 static jwk_set_t *sets[2];
 static const jwk_item_t *IH[2], *IE[2];
 
-#define NTOK 17
+#define NTOK 20
 static char *TOK[NTOK];
 static int TOKKIND[NTOK];	/* 0 unsigned, 1 HS256, 2 ES256 */
 static const char *TOKNAME[NTOK] = { "hs:pass", "hs:expired", "hs:not-yet-valid", "hs:wrong-iss", "hs:missing-sub", "hs:wrong-aud", "hs:bad-signature",
 	"es:pass", "es:expired", "es:bad-signature", "none:pass", "none:expired", "none:not-yet-valid", "none:wrong-iss", "none:missing-sub", "none:wrong-aud",
-	"hs:no-time-claims" };
+	"hs:no-time-claims", "hs:pass-with-crit-and-kid", "es:pass-with-crit-and-kid", "hs:wrong-iss-with-crit" };
 
 static void build_tokens(void)
 {
@@ -88,6 +97,10 @@ static void build_tokens(void)
 	{ size_t l = strlen(TOK[9]); TOK[9][l - 3] = TOK[9][l - 3] == 'A' ? 'B' : 'A'; }
 	for (int i = 0; i < 6; i++) { TOK[10 + i] = vh_ref_token(NULL, JWT_ALG_NONE, HN, PL[i]); TOKKIND[10 + i] = 0; }
 	TOK[16] = vh_ref_token(&KH, JWT_ALG_HS256, HH, "{\"iss\":\"me\",\"sub\":\"s\",\"aud\":\"x\"}"); TOKKIND[16] = 1;
+	/* tokens whose header carries further members (crit, kid, cty) */
+	TOK[17] = vh_ref_token(&KH, JWT_ALG_HS256, "{\"alg\":\"HS256\",\"typ\":\"JWT\",\"crit\":[\"exp\"],\"kid\":\"k0\",\"cty\":\"json\"}", PL[0]); TOKKIND[17] = 1;
+	TOK[18] = vh_ref_token(&KE, JWT_ALG_ES256, "{\"alg\":\"ES256\",\"crit\":[\"exp\"],\"kid\":\"k0\"}", PL[0]); TOKKIND[18] = 2;
+	TOK[19] = vh_ref_token(&KH, JWT_ALG_HS256, "{\"alg\":\"HS256\",\"typ\":\"JWT\",\"crit\":[\"exp\"]}", PL[3]); TOKKIND[19] = 1;
 }
 
 /* policy bits: 1 exp on, 2 nbf on, 4 iss=me, 8 sub=s, 16 aud=x */
